@@ -173,7 +173,9 @@ func (fr *frame) callCommon(st *State, cc *ssa.CallCommon, args []Val, fv Val, p
 		// a statically known dynamic type: call the concrete method (its model is more precise)
 		if recv.Tag.IsConst() {
 			if t, ok := u.E.typeByID[int(recv.Tag.V.Int64())]; ok {
-				if fn := u.E.Prog.LookupMethod(t, cc.Method.Pkg(), cc.Method.Name()); fn != nil && (u.E.intrinsic(fn) != nil || u.E.contractFor(fn) != nil) {
+				if fn := u.E.Prog.LookupMethod(t, cc.Method.Pkg(), cc.Method.Name()); fn != nil && (u.E.intrinsic(fn) != nil || (u.E.contractFor(fn) != nil && u.E.intrinsics[key] == nil)) {
+					// (a call through an interface that has a native model - io.Writer.Write - keeps that model: the concrete type's
+					// own contract speaks about its internals, the caller about the abstract byte sequence out(w))
 					var rv Val = recv.Ptr
 					if _, isPtr := t.Underlying().(*types.Pointer); !isPtr {
 						rv = u.load(st, recv.Ptr, t)
